@@ -194,6 +194,14 @@ pub(super) fn compile_with_plan(input: Plan, with: &crate::ast::WithClause) -> R
         }
     }
 
+    // DISTINCT applies to the projected rows before SKIP and LIMIT slice them; it keeps the
+    // first occurrence of every row, so the order established above is preserved.
+    if with.distinct {
+        plan = Plan::Distinct {
+            input: Box::new(plan),
+        };
+    }
+
     if let Some(skip) = &with.skip {
         validate_skip_or_limit_expression(skip)?;
         plan = Plan::Skip {
@@ -207,12 +215,6 @@ pub(super) fn compile_with_plan(input: Plan, with: &crate::ast::WithClause) -> R
         plan = Plan::Limit {
             input: Box::new(plan),
             limit: limit.clone(),
-        };
-    }
-
-    if with.distinct {
-        plan = Plan::Distinct {
-            input: Box::new(plan),
         };
     }
 
@@ -299,6 +301,14 @@ pub(super) fn compile_return_plan(
         }
     }
 
+    // DISTINCT applies to the projected rows before SKIP and LIMIT slice them; it keeps the
+    // first occurrence of every row, so the order established above is preserved.
+    if ret.distinct {
+        plan = Plan::Distinct {
+            input: Box::new(plan),
+        };
+    }
+
     if let Some(skip) = &ret.skip {
         validate_skip_or_limit_expression(skip)?;
         plan = Plan::Skip {
@@ -312,12 +322,6 @@ pub(super) fn compile_return_plan(
         plan = Plan::Limit {
             input: Box::new(plan),
             limit: limit.clone(),
-        };
-    }
-
-    if ret.distinct {
-        plan = Plan::Distinct {
-            input: Box::new(plan),
         };
     }
 
